@@ -144,6 +144,35 @@ def stepOld (st : Static) (g : GState) : OpR → GState
   | .remove m => step st g (.remove m)
   | .extract gone => addGlueOld st g gone
 
+/-! ### A scan during which modules appear
+
+A glue function that imports something (its plugin, a submodule) — or another thread importing while this one sits in
+a glue function — makes modules appear in `sys.modules` while a scan is running.  They are not in the scan's
+snapshot; the length cache is set to the size of the snapshot that was visited, so the next extraction sees a
+different length and scans again. -/
+
+/-- `sys.modules[name] = module` for each name not yet present, in order. -/
+def insertAll (p : List Mod) (ms : List Mod) : List Mod :=
+  ms.foldl (fun p m => if p.contains m then p else p ++ [m]) p
+
+/-- `add_glue_as_needed()` during which the modules in `appear` are imported (after the snapshot was taken). -/
+def addGlueA (st : Static) (g : GState) (appear : List Mod) : GState :=
+  if g.present.length == g.cache then
+    { g with present := insertAll g.present appear, log := g.log ++ [.returned] }
+  else
+    let names := g.present
+    let g' := names.foldl (visit st) g
+    { g' with present := insertAll g'.present appear, cache := names.length, log := g'.log ++ [.returned] }
+
+/-- The slip of seeded change C17-m7: the cache refreshed from the *live* `len(sys.modules)` at the end of the scan. -/
+def addGlueALive (st : Static) (g : GState) (appear : List Mod) : GState :=
+  if g.present.length == g.cache then
+    { g with present := insertAll g.present appear, log := g.log ++ [.returned] }
+  else
+    let names := g.present
+    let g' := names.foldl (visit st) g
+    { g' with present := insertAll g'.present appear, cache := (insertAll g'.present appear).length, log := g'.log ++ [.returned] }
+
 /-! The concurrent version of the routine (several threads, lock, per-thread program counters) is in
 `SSModel/GlueConc.lean`. -/
 
